@@ -115,7 +115,20 @@ impl Oplog {
     }
 
     pub fn last_op_time() -> u64 {
-        let mut f = get_log_file_read_mode(&Oplog::get_op_log_file_name());
+        let last = Oplog::last_op_time_from_file(&Oplog::get_op_log_file_name());
+        if last > 0 {
+            return last;
+        }
+        // The current file is empty right after a rotation, the newest record is then the last
+        // one of the newest rotated file
+        match get_op_log_entries_by_creation_date().first() {
+            Some(entry) => Oplog::last_op_time_from_file(&entry.path().to_str().unwrap().to_string()),
+            None => 0,
+        }
+    }
+
+    fn last_op_time_from_file(file_name: &String) -> u64 {
+        let mut f = get_log_file_read_mode(file_name);
         let total_size = f.metadata().unwrap().len();
         let size_as_u64 = OP_RECORD_SIZE as u64;
         // if the file is empty return 0 to avoid  attempt to subtract with overflow error
